@@ -461,6 +461,19 @@ theorem Inv_cstep {c c' : Core} (h : Inv c) (st : CStep c c') : Inv c' := by
     · intro g k hrl; cases hrl
     · intro g t hrl; cases hrl
 
+/-- A stream id, once assigned to a caller, is that caller's for ever; `nextStreamID` only grows. -/
+theorem id_stable_cstep {c c' : Core} (h : Inv c) (st : CStep c c') (k : Caller) (hid : c.id k ≠ 0) :
+    c'.id k = c.id k ∧ c.nextId ≤ c'.nextId := by
+  cases st with
+  | admit j hph =>
+    have hj0 : c.id j = 0 := h.earlyId j (by rcases hph with e | e <;> simp [early, e])
+    refine ⟨?_, Nat.le_add_right _ _⟩
+    simp only [upd_apply]
+    split
+    · next e => subst e; exact absurd hj0 hid
+    · rfl
+  | _ => exact ⟨rfl, Nat.le_refl _⟩
+
 theorem Inv_step (cfg : Cfg) (s : St) (op : Op) (h : Inv (core s)) : Inv (core (step cfg s op).1) :=
   Inv_cstep h (step_core cfg s op)
 
@@ -468,5 +481,22 @@ theorem Inv_run (cfg : Cfg) (s : St) (ops : List Op) (h : Inv (core s)) : Inv (c
   induction ops generalizing s with
   | nil => exact h
   | cons op ops ih => exact ih _ (Inv_step cfg s op h)
+
+theorem id_stable_run (cfg : Cfg) (s : St) (ops : List Op) (h : Inv (core s)) (k : Caller)
+    (hid : (s.cs k).id ≠ 0) :
+    ((run cfg s ops).cs k).id = (s.cs k).id ∧ s.nextId ≤ (run cfg s ops).nextId := by
+  induction ops generalizing s with
+  | nil => exact ⟨rfl, Nat.le_refl _⟩
+  | cons op ops ih =>
+    obtain ⟨a, b⟩ := id_stable_cstep h (step_core cfg s op) k hid
+    have a' : ((step cfg s op).1.cs k).id = (s.cs k).id := a
+    have b' : s.nextId ≤ (step cfg s op).1.nextId := b
+    obtain ⟨c1, c2⟩ := ih _ (Inv_step cfg s op h) (by rw [a']; exact hid)
+    exact ⟨by rw [← a']; exact c1, Nat.le_trans b' c2⟩
+
+theorem run_append (cfg : Cfg) (s : St) (a b : List Op) : run cfg s (a ++ b) = run cfg (run cfg s a) b := by
+  induction a generalizing s with
+  | nil => rfl
+  | cons op a ih => exact ih _
 
 end Req.Lemmas.C09H2Inv
